@@ -427,6 +427,23 @@ class TapeRoundTrip:
                             "bounded": "foreign stream %s, data length %d" % (shape, L)})
         return out
 
+    max_paths = 400
+
+    def probes(self, cell):
+        """concrete contents tried natively when the symbolic exploration of a cell does not finish"""
+        pats = [[0x55, 0x3C, 0x00], [0x55, 0x3C, 0x01, 0x05], [0x55, 0x3C, 0xFF, 0x00, 0xFF, 0x55], [0x00], [0x55], [0xFF, 0x55, 0x3C]]
+        if cell["kind"] == "rt":
+            for pat in pats:
+                h = {"f0type": 2, "f0dtype": 0, "f0load": 0x553C, "f0exec": 0x0055}
+                for j, (L, nl) in enumerate(zip(cell["lens"], cell["names"])):
+                    h["f%ddata" % j] = [pat[i % len(pat)] for i in range(L)]
+                    for k in range(nl):
+                        h["f%dn%d" % (j, k)] = 65 + (j + k) % 26
+                yield h
+        else:
+            for pat in pats:
+                yield {"data": [pat[i % len(pat)] for i in range(cell["len"])], "load": 0x553C, "exec": 0x3C00}
+
     def run(self, env, cell):
         F = Files(env)
         native = env.mode == "native"
